@@ -4,6 +4,7 @@ import DW.Message
 import DW.Probe
 import DW.Stage1
 import DW.Typing
+import DW.Mutate
 
 /-!
 # Driver: one request per line on stdin, one answer per line on stdout
@@ -30,6 +31,41 @@ def typeLine (c : Cfg) (raw : RawItem) : String :=
       acc ++ " @@ " ++ t.trait.asStr ++ " " ++
         (if ims.all fun im => im.methods.all (Method'.wellTyped inp.item) then "well-typed" else "ILL-TYPED")) "ok"
   | .error e => if e.isPanic then "panic" else "err"
+
+/-- `typemut <cfg> <item> ## <seed> <count>`: the original and `count` mutants of every generated method, each with the
+model's typing verdict and the tokens of the whole impl. -/
+def typeMutLine (c : Cfg) (raw : RawItem) (seed count : Nat) : String :=
+  match deriveWhere c raw with
+  | .ok (inp, impls) =>
+    impls.foldl (fun acc (t, ims) =>
+      ims.foldl (fun acc im =>
+        match im.methods with
+        | [m] =>
+          let one (tag : String) (body : Expr) : String :=
+            let m' : Method' := { m with body := body }
+            " @@ " ++ t.trait.asStr ++ " " ++ tag ++ " " ++
+              (if m'.wellTyped inp.item then "well-typed" else "ill-typed") ++ " " ++
+              joinToks (Impl.toks inp { im with methods := [m'] })
+          (mutantsOf (mix seed acc.length) count m.body).foldl
+            (fun acc (kind, b) => acc ++ one ("m" ++ toString kind) b) (acc ++ one "orig" m.body)
+        | _ =>
+          -- marker impls (`Copy`, `ZeroizeOnDrop`): no body to type, but siblings need them
+          acc ++ " @@ " ++ t.trait.asStr ++ " orig well-typed " ++ joinToks (Impl.toks inp im)) acc) "ok"
+  | .error e => if e.isPanic then "panic" else "err"
+
+def handleTypeMut (line : String) : String :=
+  match line.splitOn " ## " with
+  | [head, args] =>
+    match head.splitOn " ", args.splitOn " " with
+    | _ :: cfg :: rest, [seed, count] =>
+      match dCfg cfg, Sexp.parse (" ".intercalate rest), seed.toNat?, count.toNat? with
+      | some c, some sx, some s, some n =>
+        match dItem sx with
+        | some raw => typeMutLine c raw s n
+        | none => "bad-item"
+      | _, _, _, _ => "bad-request"
+    | _, _ => "bad-request"
+  | _ => "bad-request"
 
 def handleSpec (line : String) : String :=
   match line.splitOn " ## " with
@@ -70,6 +106,7 @@ def handleStage1 (line : String) : String :=
 
 def handle (line : String) : String :=
   if line.startsWith "specq " then handleSpec line else
+  if line.startsWith "typemut " then handleTypeMut line else
   if line.startsWith "stage1 " then handleStage1 line else
   match line.splitOn " " with
   | cmd :: cfg :: rest =>
